@@ -365,6 +365,7 @@ func init() { registerReplay("C17", propC17) }
 
 const c17Rule = "rapid-generated: base channel (recording fake, in-process, httpgrpc, real *grpc.ClientConn over bufconn) x 0..4 InterceptClientConn layers, each with nil or non-nil unary and stream interceptors x behaviours (pass, short-circuit error incl. a bare context error, short-circuit success, append / drop call options, rewrite the method, use the invoker twice) x 0..2 caller options x unary/stream call x caller context live or already cancelled (fake base); " +
 	"oracle = model log (recursive interpreter): outermost wrapper first, each applicable interceptor once per use of the invoker above it, with the method and option count as transformed so far and cc = the underlying *grpc.ClientConn iff the base is one (at every depth, unary and stream alike); the base sees method/message/options as transformed; nil,nil returns the same channel; Unwrap returns the wrapped one; " +
+	"also generated since the seeded rounds: interceptors handing on a request of their own (the base and the handler see that one); " +
 	"non-trivial = depth >= 2; distinct by case hash"
 
 func TestC17(t *testing.T) {
